@@ -6,7 +6,7 @@
    This file contains only statements closed by `exact`, their assumptions and non-vacuity examples.
    Generated once by tools/genprops.py from the proved lemmas (statements restated verbatim). *)
 From Coq Require Import List NArith ZArith Bool Lia Sorting.Sorted Sorting.Permutation.
-From Viv Require Import Base.Assoc Base.Tree Model.Paths Model.Steps Proofs.Steps_proofs Proofs.StepsPerm_proofs.
+From Viv Require Import Base.Assoc Base.Tree Model.Paths Model.Steps Proofs.Steps_proofs Proofs.StepsPerm_proofs Proofs.StepsCond_proofs.
 Import ListNotations.
 
 (* every graph step occurs in exactly one generation *)
@@ -235,6 +235,43 @@ Theorem C05_layers_listing_order_moot :
          (forall e : node * node, In e (gedges g) <-> In e (gedges g')) -> layers g = layers g'.
 Proof. exact @layers_listing_order_moot. Qed.
 Print Assumptions C05_layers_listing_order_moot.
+
+(* update conditions of steps: a phase in which every step condition is false changes neither the state nor the set of live steps *)
+Theorem C05_phase_all_false :
+  forall (Sg U : Type) (step_fn : node -> Sg -> U)
+           (apply1 : Sg -> list node -> node -> U -> Sg * list node) (cond : node -> Sg -> bool)
+           (nothing : U),
+         (forall (s : Sg) (live : list node) (n : node), apply1 s live n nothing = (s, live)) ->
+         forall (ls : list (list node)) (s : Sg) (live : list node) (log : list (sev Sg)),
+         (forall n : node, cond n s = false) ->
+         let
+         '(s', live', _) := run_layers Sg U (gated Sg U step_fn cond nothing) apply1 ls s live log in
+          s' = s /\ live' = live.
+Proof. exact @phase_all_false. Qed.
+Print Assumptions C05_phase_all_false.
+
+(* a layer has the effect of its steps whose condition holds (all computed from the same state); the others contribute nothing *)
+Theorem C05_layer_only_true_steps_count :
+  forall (Sg U : Type) (step_fn : node -> Sg -> U)
+           (apply1 : Sg -> list node -> node -> U -> Sg * list node) (cond : node -> Sg -> bool)
+           (nothing : U),
+         (forall (s : Sg) (live : list node) (n : node), apply1 s live n nothing = (s, live)) ->
+         forall (l : list node) (rest : list (list node)) (s : Sg) (live : list node)
+           (log : list (sev Sg)),
+         fst (run_layers Sg U (gated Sg U step_fn cond nothing) apply1 (l :: rest) s live log) =
+         fst
+           (let running := filter (fun n : node => nmem n live) l in
+            let
+            '(s', live') :=
+             fold_left
+               (fun (acc : Sg * list node) (nu : node * U) =>
+                apply1 (fst acc) (snd acc) (fst nu) (snd nu))
+               (map (fun n : node => (n, step_fn n s)) (filter (fun n : node => cond n s) running))
+               (s, live) in
+             run_layers Sg U (gated Sg U step_fn cond nothing) apply1 rest s' live'
+               (log ++ map (fun n : node => ERun Sg n s) running)).
+Proof. exact @layer_only_true_steps_count. Qed.
+Print Assumptions C05_layer_only_true_steps_count.
 
 
 (* ---- non-vacuity: a concrete flow ---- *)
